@@ -6,6 +6,8 @@ import Soa.Props.C04Gen.SliceGet
 import Soa.Props.C04Gen.SliceIndex
 import Soa.Props.C04Gen.SliceMutGetMut
 import Soa.Props.C04Gen.SliceMutIndexMut
+import Soa.Model.Pinned
+import Soa.Extracted.Bodies
 /-!
 # C04 — checked indexing agrees with std slices and is never out of bounds
 
@@ -169,5 +171,14 @@ example : sh3.wf := by simp [sh3, Shape.wf]
 example : IV.ok { form := .rangeIncl, start := 1, end_ := 2 } := ⟨by decide, rfl⟩
 example : run .debug 3 sh3 .sliceMut { form := .rangeIncl, start := 1, end_ := 2 } .getMut = .ok (.some_ (.win 1 2)) := by
   decide
+
+/-- **text pin**: the generated functions this property's hand-written model describes have, in
+    /repo today, exactly the text the model was written from (`Soa/Model/Pinned.lean`) -/
+theorem bodies_pinned :
+    Soa.Extracted.bodies.filter (fun r => Soa.Model.scopeOf r == "C04") =
+    Soa.Model.pinned.filter (fun r => Soa.Model.scopeOf r == "C04") := by decide +kernel
+
+theorem bodies_pinned_nonempty :
+    (Soa.Model.pinned.filter (fun r => Soa.Model.scopeOf r == "C04")).length ≥ 4 := by decide +kernel
 
 end Soa.C04
